@@ -754,6 +754,34 @@ def stream_big_pairs(ctx):
                 return
 
 
+def stream_relabel_lb(ctx):
+    """[T] "valid brackets under any vertex relabelling": a connected graph against a random relabelling of itself has
+    mGH = 0, so the lower bound computed from the two distance matrices must be exactly 0 - an exact oracle at sizes
+    (7-11 vertices, thousands of pairs) where the exhaustive mGH oracle is out of reach.  Catches unsound lower bounds
+    that depend on the vertex order of the second graph."""
+    r = ctx.rng
+    m = gh()
+    for _ in range(ctx.n(1500, 15000)):
+        n = r.randint(7, 11)
+        U1 = g_connected(r, n)
+        U2 = relabel_sym(r, U1)
+        with np.errstate(all="ignore"), warnings.catch_warnings():
+            warnings.simplefilter("ignore")
+            try:
+                lb = float(m.find_lb(m.make_distance_matrix_from_adjacency_matrix(np.array(U1)),
+                                     m.make_distance_matrix_from_adjacency_matrix(np.array(U2))))
+                why = None if lb == 0.0 else "lower bound %s/2 for a graph and a relabelling of itself (mGH = 0)" % lb
+            except Exception as e:                      # noqa: a raise on a well-formed connected graph is a failing input
+                why = "raised %s: %s" % (type(e).__name__, e)
+        ctx.test("relabelled_self_pair_lb_zero", why is None)
+        ctx.count("relabel_lb:n=%d" % n)
+        if why:
+            ctx.violation("relabelling changes the bracket: " + why,
+                          {"op": "bigpair", "name": "relabelled %d-vertex graph" % n, "seed": 0, "order": [0.0, 0.0], "container": "int",
+                           "entries": [U1, U2], "isomorphic": True}, law="bigpair")
+            return
+
+
 def big_pair_ok(c):
     U1, U2 = c["entries"]
     np.random.seed(c["seed"])
@@ -1019,7 +1047,7 @@ def run(ctx):
         v["missed_lines_in_anchored_range_116_265"] = [x for x in v.pop("missed_lines") if 116 <= x <= 265]
     ctx.extra["line_coverage_probe"] = summ
     ctx.extra["core_theorems"] = CORE_THEOREMS
-    for stream in (stream_dist, stream_inttype, stream_limits, stream_big_pairs, stream_pairs, stream_collections):
+    for stream in (stream_dist, stream_inttype, stream_limits, stream_big_pairs, stream_relabel_lb, stream_pairs, stream_collections):
         stream(ctx)
         if stop(ctx):
             return
